@@ -14,3 +14,4 @@ import MqttVerif.Model.Heap
 import MqttVerif.Model.Errors
 import MqttVerif.Model.Inbound
 import MqttVerif.Spec.InboundSpec
+import MqttVerif.Model.Retry
